@@ -3,7 +3,7 @@
 import json, os, sys
 ROOT = os.path.dirname(os.path.dirname(os.path.abspath(__file__)))
 sys.path.insert(0, ROOT)
-HOOK_COMMITS = ["80cfb21", "2592ea0"]
+HOOK_COMMITS = ["80cfb21", "2592ea0", "83f26ce"]
 
 CLAIMS = {
  "C06": dict(engine="overlay", design="6/C06", technique="TLC exhaustive model checking of spec/Overlay.tla (impl-shaped merge vs reference ordered map) + replay of every reachable state on real StorageTransaction stacks + TLC trace validation of random real executions",
@@ -26,7 +26,7 @@ def _chain(pid, what, design):
 CLAIMS.update({
  "C01": _chain("C01", "Focus: Ok/Err, responses per message, full post-state, raw storage byte-identical after Err; the repository's own tests validated as traces against spec/Monitor.tla (a failing entry point leaves the storage digest unchanged).", "6/C01"),
  "C02": _chain("C02", "Focus: what later invocations can read after a caught/uncaught failure, Ok/Err, post-state; second menu `stake`: staking/distribution messages with their real semantics sent by contracts and rolled back with failing siblings; random programs (with and without real staking) validated by TLC (Trace_Chain).", "6/C02"),
- "C03": _chain("C03", "Focus: exact sequence of entry-point invocations and the id/payload/result of each Reply.", "6/C03"),
+ "C03": _chain("C03", "Focus: exact sequence of entry-point invocations and the id/payload/result of each Reply; the repository's own tests validated as traces against spec/Monitor.tla (every executed sub-message and every reply call noted by hooks: a reply exactly for, and directly after, the sub-messages that ask for it).", "6/C03"),
  "C04": _chain("C04", "Focus: exact events and data bytes of every response and of every Reply.", "6/C04"),
  "C05": _chain("C05", "Focus: sender, own address, block, funds told and visible balances at every invocation; no invocation on overdraw.", "6/C05"),
  "C08": _chain("C08", "Focus: every contract's storage through four views at every invocation and after the call.", "6/C08"),
